@@ -82,3 +82,9 @@ claim(
     "Seeded random exploration over the C01 program space x focus positions (parameters, all assignment forms, loop/with targets, attribute stores, return value) x override functions (constant, of tentative value, of context, conditional/declining) x mechanisms x nesting orders; result, exception, generator trace, ordered side-effect log and state must equal the substituted twin's, plain probes inside and outside must see the substituted values, and closure-variable overrides must raise OverrideException without touching the cell. Held-on-observed.",
     "Override functions decline for non-int tentative values; an overridable probe's own stream is not asserted.",
 )
+claim(
+    "C10",
+    "differential monitor against Python's own symtable: every symbol of the generated function must be selectable with the matching provenance; fresh names, bad meta-variables, unresolvable functions and uninstrumentable objects must be refused with the stated error class and a clean state",
+    "Seeded random exploration over generated functions (bindings inside except/with/for/try/else blocks, nested def/class, comprehension and walrus variables, global/nonlocal declarations, closures): ~30 name checks per function against symtable.symtable(), plus refusal checks (SelectorError before anything runs: zero interact() calls, instrument_count back to 0, original code object) and a fixed battery of 11 uninstrumentable objects (TypeError). Held-on-observed.",
+    "Python's symtable is the arbiter; names occurring only in nested scopes are not asserted.",
+)
